@@ -1,6 +1,6 @@
 (* C07 property theorems. This file contains only statements closed by
    [exact lemma] and Print Assumptions. *)
-From V Require Import Common.Base Common.Utf8 C07.LineCol C07.Builder C07.BuilderProofs C07.LineColAux C07.LineColProofs C07.Shift C07.ShiftAux C07.ShiftProofs C07.Vlq C07.SpecMap C07.Mappings C07.VlqProofs C07.MappingsProofs C07.FindProofs C07.JoinProofs C07.SpecBuilder C07.BuilderExact.
+From V Require Import Common.Base Common.Utf8 C07.LineCol C07.Builder C07.BuilderProofs C07.LineColAux C07.LineColProofs C07.Shift C07.ShiftAux C07.ShiftProofs C07.Vlq C07.SpecMap C07.Mappings C07.VlqProofs C07.MappingsProofs C07.FindProofs C07.JoinProofs C07.SpecBuilder C07.BuilderExact C07.JoinAll C07.JoinAllProofs.
 
 (* encodeVLQ/DecodeVLQ round trip, every integer, arbitrary trailing bytes *)
 Theorem vlq_roundtrip : forall v rest, DecodeVLQ (encodeVLQ v ++ rest) = Some (v, rest).
@@ -118,3 +118,35 @@ Theorem builder_mappings_exact : forall text cover evs fin,
     sorted_ops ops 0.
 Proof. exact builder_exact_all. Qed.
 Print Assumptions builder_mappings_exact.
+
+(* Many files. The "Write the mappings" loop of linker.generateSourceMapForChunk
+   (JoinAll.v: prevEndState / prevColumnOffset / totalQuotedNameLen bookkeeping,
+   the two "Internal error" panics, null entries, the sourceIndexToSourcesIndex
+   table of the first loop), applied to ANY list of compiled files whose chunks
+   are builder outputs with at least one mapping (ShouldIgnore chunks never
+   reach the loop) and whose offsets have a non-negative line count: the loop
+   does not panic, and the mappings string it writes denotes, under the v3
+   semantics, exactly every file's mappings, in order, moved to the place of the
+   file's text -- start of file i = end of file i-1's text + offset i, end of
+   its text = start + (number of line breaks, final column) -- with the file's
+   "sources" index added to the source index and the number of names of the
+   earlier files added to the name index. By induction over the file list on
+   top of join_bytes. (Null entries are modelled and tied by correspondence;
+   the theorem is about lists without them.) *)
+Theorem join_all_decodes : forall fs,
+  Forall file_ok fs ->
+  let tbl := assign_sources (map res_of fs) [] 0 in
+  exists m, join_all (map res_of fs) = Some m /\
+            m = emit_bytes (joined_ops tbl fs 0 0) /\
+            spec_decode m = Some (joined_abs tbl fs (0, 0) 0).
+Proof. exact join_all_decodes_all. Qed.
+Print Assumptions join_all_decodes.
+
+(* the "sources" numbering used above: distinct source indices get 0,1,2,...
+   in order of first appearance and every non-null result has an entry *)
+Theorem sources_table_first_appearance : forall rs,
+  let t := assign_sources rs [] 0 in
+  map snd t = zseq 0 (length t) /\ NoDup (map fst t) /\
+  (forall r, In r rs -> j_null r = false -> tbl_find (j_src r) t <> None).
+Proof. exact sources_table_all. Qed.
+Print Assumptions sources_table_first_appearance.
